@@ -175,6 +175,9 @@ func prepareScripts(obls []*Obligation) {
 	wg.Wait()
 }
 
+// keepHypScript: also print the hypotheses-only query (vacuity sweep at relock)
+var keepHypScript bool
+
 func prepareOne(o *Obligation) {
 	if o.done && o.bank == nil {
 		return
@@ -194,6 +197,9 @@ func prepareOne(o *Obligation) {
 				}
 			}()
 			o.smt = o.script()
+			if keepHypScript && !o.Cover {
+				o.smtHyps = o.scriptHyps()
+			}
 		}()
 	}
 	o.GoalText = o.bank.Show(o.Goal)
